@@ -1,6 +1,7 @@
 import UbxModel.Proofs.CfgKeys
 namespace Ubx
 open Spec
+variable [KeyTable]
 
 theorem bytesForSize_valid (bits : Nat) (hb : validBits bits) : bytesForSize bits = .ok (valueBytes bits) := by
   rcases hb with rfl | rfl | rfl | rfl | rfl <;> simp [bytesForSize, bytesFromBits_eq, valueBytes, List.find?]
